@@ -17,6 +17,7 @@ import (
 	"github.com/jub0bs/cors"
 	"github.com/jub0bs/cors/cfgerrors"
 	"github.com/jub0bs/cors/internal/headers"
+	"github.com/jub0bs/cors/internal/origins"
 )
 
 // ======================= C07: deterministic schedule points =======================
@@ -570,6 +571,47 @@ func famPanic(o *Out, r R, tier string) {
 				})
 			}
 		}
+	}
+}
+
+// famSplit: the hand-sliced splitAtCommonSuffix against the index-level model (every index checked)
+func famSplit(o *Out, r R, tier string) {
+	n := 2000
+	if tier == "thorough" {
+		n = 40000
+	}
+	alpha := "ab."
+	for i := 0; i < n; i++ {
+		gen := func() string {
+			l := r.Intn(8)
+			if r.chance(1, 20) {
+				l = r.Intn(300)
+			}
+			b := make([]byte, l)
+			for j := range b {
+				b[j] = alpha[r.Intn(len(alpha))]
+				if r.chance(1, 30) {
+					b[j] = byte(r.Intn(256))
+				}
+			}
+			return string(b)
+		}
+		a, c := gen(), gen()
+		if r.chance(1, 3) { // force a common suffix
+			suf := gen()
+			a, c = a+suf, c+suf
+		}
+		var impl SL
+		func() {
+			defer func() {
+				if recover() != nil {
+					impl = SL{}
+				}
+			}()
+			x, y, z := origins.VerifSplitAtCommonSuffix(a, c)
+			impl = SL{B(x), B(y), B(z)}
+		}()
+		o.emit("split", len(a) > 0 && len(c) > 0, "split", KV("a", B(a)), KV("c", B(c)), KV("impl", impl))
 	}
 }
 
